@@ -102,11 +102,18 @@ def natoms(residues):
     return sum(len(r[1]) for r in residues)
 
 
-def make_descriptor(rs, profile="full", for_mapping=False):
+def renamed_end(sp):
+    """pseudo species: the end-resolution topology of sp under ANOTHER molecule name (legal for an explicit triple)"""
+    return {"name": "REN" + sp["name"], "cg": [[r[0], list(r[1])] for r in sp["aa"]],
+            "aa": [[r[0], list(r[1])] for r in sp["aa"]], "same_sig": True}
+
+
+def make_descriptor(rs, profile="full", for_mapping=False, nsp=None):
     """profile: 'small' (few candidate files, exhaustive permutations), 'full', 'samesig'."""
     if profile == "ambig":
         return make_ambiguous(rs)
-    nsp = 1 if profile == "small" else int(rs.randint(2, 4))
+    if nsp is None:
+        nsp = 1 if profile == "small" else int(rs.randint(2, 4))
     species = []
     for k in range(nsp):
         ss = (profile == "samesig" and k == 0) or (profile != "small" and rs.randint(0, 6) == 0) or \
@@ -213,6 +220,14 @@ def make_descriptor(rs, profile="full", for_mapping=False):
         p = present[sp["name"]]
         if len(p) == 3 and rs.randint(0, 3) == 0:
             known.append([p["cg"], p["aa_coor"], p["aa_top"]])
+            if not for_mapping and rs.randint(0, 3) == 0:
+                # the explicit triple uses an end topology that declares another molecule name
+                ps = renamed_end(sp)
+                pseudo.append(ps)
+                files.append({"name": "renamed_" + p["aa_top"], "kind": "top", "mol": ps["name"], "res": "aa"})
+                known[-1][2] = "renamed_" + p["aa_top"]
+                if rs.randint(0, 2):
+                    listing.append("renamed_" + p["aa_top"])
             if not for_mapping and rs.randint(0, 5) < 3:
                 # the explicit species' files are ALSO listed under another spelling of the same path and/or as a copy:
                 # the textual removal does not see them, only the pre-loaded start system keeps the species out
@@ -730,8 +745,13 @@ def library_workflow(ref, triples, scale, out, seed, steps, cwd=None):
         with warnings.catch_warnings():
             warnings.simplefilter("ignore")
             with _quiet():
+                from gaddlemaps.components import MoleculeTop
+                ends = [(MoleculeTop(t[0]).name, Molecule.from_files(t[1], t[2])) for t in triples]
                 man = Manager.from_files(ref, *[t[0] for t in triples])
-                man.add_end_molecules(*[Molecule.from_files(t[1], t[2]) for t in triples])
+                for start_name, end_mol in ends:
+                    # the pairing of an explicit triple is given by the triple (the end topology may declare another
+                    # molecule name): Manager docstring, `molecule_correspondence[name].end = molecule`
+                    man.molecule_correspondence[start_name].end = end_mol
                 man.align_molecules()
                 man.calculate_exchange_maps(scale)
                 man.extrapolate_system(out)
@@ -957,14 +977,43 @@ def discovery_case(ctx, W, desc, d, rs, hash_obs=None, tag="gen"):
     return bad
 
 
+def exclusion_patterns(desc, d, mol):
+    """--exclude lists worth trying: species that are adjacent / not adjacent in discovery order (= sorted start
+    topology among the complete discovered species), all species, an explicitly given species among them"""
+    exp, known_species, _ = expected_discovery(desc, d, mol)
+    comp = sorted((min(o["top_CG"] for o in opts), n) for n, opts in exp.items() if any(len(o) == 3 for o in opts))
+    comp = [n for _, n in comp]
+    pats = [list(desc["in_system"]), list(desc["in_system"]) + ["SOL"]]
+    for i in range(len(comp) - 1):
+        pats.append(comp[i:i + 2])
+        pats.append(comp[i:i + 2][::-1])
+    if len(comp) >= 3:
+        pats += [[comp[0], comp[-1]], comp[:], comp[::-1], comp[1:]]
+    for n in sorted(known_species):
+        pats += [[n] + comp[:2], comp[:2] + [n]]
+    return [p_ for p_ in pats if p_]
+
+
 def main_record_case(ctx, W, desc, d, rs):
+    mol = [[os.path.join(d, x) for x in k] for k in desc["known"]]
+    use_auto = bool(rs.randint(0, 5))
+    u = int(rs.randint(0, 6))
+    if u == 0:
+        exclude = None
+    elif u == 1:
+        exclude = desc["exclude"]
+    else:
+        pats = exclusion_patterns(desc, d, mol)
+        exclude = pats[int(rs.randint(0, len(pats)))]
+    outfile = [None, os.path.join(d, "out.gro"), "rel_out.gro"][int(rs.randint(0, 3))]
+    scale = [None, 0.5, 0.7, 1.0, 0.25][int(rs.randint(0, 5))]
+    return main_record_fixed(ctx, W, desc, d, use_auto, exclude, outfile, scale)
+
+
+def main_record_fixed(ctx, W, desc, d, use_auto, exclude, outfile, scale):
     ref = os.path.join(d, desc["ref"])
     files = [spell(d, e) for e in desc["auto"]]
     mol = [[os.path.join(d, x) for x in k] for k in desc["known"]]
-    use_auto = bool(rs.randint(0, 5))
-    exclude = desc["exclude"] if rs.randint(0, 4) else None
-    outfile = [None, os.path.join(d, "out.gro"), "rel_out.gro"][int(rs.randint(0, 3))]
-    scale = [None, 0.5, 0.7, 1.0, 0.25][int(rs.randint(0, 5))]
     argv = build_argv(ref, mol, files if use_auto else None, exclude, outfile, scale)
     obs = impl_main_record(argv, cwd=d if needs_cwd(desc) else None)
     meta = {"kind": "main_record", "desc": desc, "use_auto": use_auto, "exclude": exclude, "outfile": outfile,
@@ -1302,7 +1351,7 @@ def correspondence(ctx):
     combos = [(f, o) for o in outs for f in forms]
     combos = combos[0::2] + combos[1::2]          # interleave so that any prefix mixes the modes
     for k in range(nreal):
-        desc = make_descriptor(rs, "full" if k % 3 else "samesig", for_mapping=True)
+        desc = make_descriptor(rs, "full" if k % 3 else "samesig", for_mapping=True, nsp=3 if k % 3 == 1 else None)
         triples = {}
         for sp in desc["species"]:
             if sp["name"] in desc["in_system"]:
@@ -1320,16 +1369,31 @@ def correspondence(ctx):
             mol = []
             auto = list(desc["auto"])
             excl = [names[int(rs.randint(0, len(names)))]] if len(names) > 1 else ["SOL"]
+            # two species that are consecutive in discovery order (sorted start topology), leaving one to map
+            disc_order = sorted((n for n in names if not species_of(desc, n)["same_sig"]), key=lambda n: triples[n][0])
+            rest = [n for n in names if species_of(desc, n)["same_sig"]]
+            if len(disc_order) >= 2 and (len(disc_order) >= 3 or rest):
+                i = int(rs.randint(0, len(disc_order) - 1))
+                excl = disc_order[i:i + 2] if k % 2 else disc_order[i:i + 2][::-1]
         else:                               # mixed
             mol = [list(triples[names[0]])]
             auto = list(desc["auto"])
             excl = None
+            disc_order = sorted((n for n in names[1:] if not species_of(desc, n)["same_sig"]), key=lambda n: triples[n][0])
+            if len(disc_order) >= 2:
+                excl = [names[0]] + disc_order[:2]        # an explicit species among the excluded names stays mapped
         if not mol and auto is None:
             continue
         # same-signature species discovered automatically may be oriented either way: give them explicitly instead
         for sp in desc["species"]:
             if sp["same_sig"] and sp["name"] in triples and auto is not None and list(triples[sp["name"]]) not in mol:
                 mol.append(list(triples[sp["name"]]))
+        # an explicit triple whose end topology declares ANOTHER molecule name than its start topology
+        if mol and k % 3 != 1 and not species_of(desc, [n for n in names if triples[n][0] == mol[0][0]][0])["same_sig"]:
+            sp0 = species_of(desc, [n for n in names if triples[n][0] == mol[0][0]][0])
+            desc["species"].append(renamed_end(sp0))
+            desc["files"].append({"name": "renamed_" + mol[0][2], "kind": "top", "mol": "REN" + sp0["name"], "res": "aa"})
+            mol[0][2] = "renamed_" + mol[0][2]
         # the explicit species' files are listed again under another spelling, and its start topology as a copy: the
         # species must not be discovered a second time (only the pre-loaded start system prevents it)
         if auto is not None and mol:
